@@ -371,18 +371,20 @@ VCLAUSE(summary_statistics, 1100, 8000, 160000, "the data are shifted far from t
 		ss += ((long double) v - mean) * ((long double) v - mean);
 	long double var = ss / (N - 1);
 	double big = std::fabs(shift) + 32;
-	VCLOSE(c, "mean", mx, (double) mean, 4 * EPS * 32, "Arithmetic_Mean");
-	VCLOSE(c, "mean_translation", my, (double) (mean + shift), 4 * EPS * big, "mean(x+c)=mean(x)+c");
-	VCLOSE(c, "mean_scaling", mz, (double) (mean * scal), 4 * EPS * 32 * std::fabs(scal), "mean(a x)=a mean(x)");
-	VCLOSE(c, "mean_permutation", mp, mx, 4 * EPS * 32, "mean of a permutation");
-	double vtol = 16 * EPS * (double) var + 1e-300;
+	double mtol = (4 + N) * EPS * 32;	// an incrementally updated mean is as good as sum/N
+	VCLOSE(c, "mean", mx, (double) mean, mtol, "Arithmetic_Mean");
+	VCLOSE(c, "mean_translation", my, (double) (mean + shift), (4 + N) * EPS * big, "mean(x+c)=mean(x)+c");
+	VCLOSE(c, "mean_scaling", mz, (double) (mean * scal), mtol * std::fabs(scal), "mean(a x)=a mean(x)");
+	VCLOSE(c, "mean_permutation", mp, mx, mtol, "mean of a permutation");
+	// (any summation order, one- or two-pass: N*eps relative; the fuzzer found 17 eps at N=125 for the two-pass formula itself)
+	double vtol = (16 + 2 * N) * EPS * (double) var + 1e-300;
 	VCLOSE(c, "variance", vx, (double) var, vtol, "Variance (N-1 in the denominator)");
 	// two-pass variance of shifted data: the mean carries eps*|c|, which enters as N*(eps*c)^2/(N-1) plus the cross term
 	double dl = 2 * EPS * big;
 	VCLOSE(c, "variance_translation", vy, (double) var, vtol + 4 * dl * dl + 4 * dl * std::sqrt((double) var), "Var(x+c)=Var(x) for c=" << shift);
 	VCLOSE(c, "variance_scaling", vz, (double) var * scal * scal, vtol * scal * scal, "Var(a x)=a^2 Var(x)");
 	VCLOSE(c, "variance_permutation", vp, vx, vtol, "variance of a permutation");
-	VCLOSE(c, "standard_deviation", sx, std::sqrt((double) var), 16 * EPS * std::sqrt((double) var) + 1e-300, "Standard_Deviation = sqrt(Variance)");
+	VCLOSE(c, "standard_deviation", sx, std::sqrt((double) var), (16 + N) * EPS * std::sqrt((double) var) + 1e-300, "Standard_Deviation = sqrt(Variance)");
 	VCLOSE(c, "standard_deviation_translation", sy, sx, (4 * dl * dl + 4 * dl * std::sqrt((double) var)) / std::max(2 * std::sqrt((double) var), 1e-300) + 16 * EPS * sx + (var == 0 ? 2 * dl : 0), "Standard_Deviation(x+c)");
 	// median against sorting (the function may reorder its argument)
 	std::vector<double> cp = perm, cy = y, so = x;
@@ -405,7 +407,7 @@ VCLAUSE(summary_statistics, 1100, 8000, 160000, "the data are shifted far from t
 	std::vector<double> wa, was;
 	VMUST_RETURN("Weighted_Average", wa = Weighted_Average(dp); was = Weighted_Average(dps));
 	VCHECK(wa.size() == 2, "Weighted_Average returns {average, standard error}");
-	VCLOSE(c, "weighted_average_equal_weights", wa[0], (double) mean, 8 * EPS * 32, "equal weights: the plain mean");
+	VCLOSE(c, "weighted_average_equal_weights", wa[0], (double) mean, (8 + N) * EPS * 32, "equal weights: the plain mean");
 	VCLOSE(c, "weighted_standard_error", wa[1], std::sqrt((double) var / N), 64 * EPS * std::sqrt((double) var / N) + 1e-300, "equal weights: standard error s/sqrt(N)");
 	VCLOSE(c, "weighted_average_translation", was[0], (double) (mean + shift), 8 * EPS * big, "weighted average of shifted data");
 	// genuinely different weights: average against the definition
@@ -420,7 +422,7 @@ VCLAUSE(summary_statistics, 1100, 8000, 160000, "the data are shifted far from t
 	}
 	std::vector<double> wq;
 	VMUST_RETURN("Weighted_Average", wq = Weighted_Average(dq));
-	VCLOSE(c, "weighted_average_definition", wq[0], (double) (swx / sw), 8 * EPS * 32, "sum(w x)/sum(w)");
+	VCLOSE(c, "weighted_average_definition", wq[0], (double) (swx / sw), (8 + N) * EPS * 32, "sum(w x)/sum(w)");
 	VCHECK(wq[1] >= 0 && std::isfinite(wq[1]), "weighted standard error " << wq[1]);
 	// unequal weights: Cochran's ratio-variance formula in long double, and its translation / scaling behaviour
 	{
